@@ -63,11 +63,11 @@ static void add_limit(std::string &o, const char *name, long v) {
   if (v >= 0) o += std::string("  <limit name=\"") + name + "\">" + std::to_string(v) + "</limit>\n";
 }
 
-std::string make_bus_config(const std::string &policy_xml, const BusLimits &l, const std::string &extra) {
+std::string make_bus_config(const std::string &policy_xml, const BusLimits &l, const std::string &extra, bool fragment) {
   std::string o =
       "<!DOCTYPE busconfig PUBLIC \"-//freedesktop//DTD D-Bus Bus Configuration 1.0//EN\"\n"
-      " \"http://www.freedesktop.org/standards/dbus/1.0/busconfig.dtd\">\n<busconfig>\n"
-      "  <listen>unix:abstract=simbus</listen>\n";
+      " \"http://www.freedesktop.org/standards/dbus/1.0/busconfig.dtd\">\n<busconfig>\n";
+  if (!fragment) o += "  <listen>unix:abstract=simbus</listen>\n";   // an included file brings limits, directories, policy - no listener
   o += extra;
   o += policy_xml;
   add_limit(o, "max_completed_connections", l.max_completed_connections);
